@@ -184,6 +184,28 @@ def build(case):
     raise KeyError(name)
 
 
+_DIRTY = []
+
+
+def _dirty_heap(rep):
+    """Allocate and free small blocks holding junk with Numba's allocator, so that uninitialised work arrays of the next call
+    do not find the zeros of a pristine heap."""
+    if not _DIRTY:
+        import numba
+
+        @numba.njit
+        def junk(v):
+            t = 0.0
+            for k in range(2, 9):
+                a = np.empty(k)
+                a[:] = v
+                t += a[0]
+            return t
+
+        _DIRTY.append(junk)
+    _DIRTY[0](1e300 * (rep + 1) if rep % 2 else -7.5e-300 * (rep + 1))
+
+
 def _eq(a, b):
     a, b = np.asarray(a), np.asarray(b)
     return a.shape == b.shape and a.dtype == b.dtype and np.array_equal(a, b, equal_nan=a.dtype.kind == "f")
@@ -201,9 +223,10 @@ def sub_program(case):
     try:
         with warnings.catch_warnings():
             warnings.simplefilter("ignore")
-            for rep in range(2):
+            for rep in range(2 if len(case["y"]) != 3 else 5):
+                _dirty_heap(rep)
                 if kind == "gu":
-                    bufs = tuple(np.full(s, POISON[d][rep], dtype=d) for s, d in outs)
+                    bufs = tuple(np.full(s, POISON[d][rep % 2], dtype=d) for s, d in outs)
                     k(*ins, out=bufs if len(bufs) > 1 else bufs[0])
                     results.append(bufs)
                 else:
@@ -254,6 +277,10 @@ def sub_program(case):
                         desc, int((b[guard] != np.array(POISON[d][0], dtype=d)).sum())), name + " writes outside the output row")
             req(_eq(np.array(v), np.asarray(a)), "%s: result through strided views differs from the contiguous call (cells read or written "
                 "at the wrong stride): %s vs %s" % (desc, fmt(np.asarray(v), 12), fmt(np.asarray(a), 12)), name + " ignores array strides")
+    for extra in results[2:]:
+        for a, b in zip(results[0], extra):
+            req(_eq(a, b), "%s: repeated runs give different results (an output element is not written, or depends on stale memory): %s vs %s" % (
+                desc, fmt(a, 12), fmt(b, 12)), name + " non-deterministic / unwritten output")
     for a, b in zip(results[0], results[1]):
         req(_eq(a, b), "%s: two runs give different results (an output element is not written, or depends on stale memory): %s vs %s" % (
             desc, fmt(a, 12), fmt(b, 12)), name + " non-deterministic / unwritten output")
@@ -373,3 +400,17 @@ def run(ctx):
                      cls=["prog:" + name, "n=%d" % min(len(case["y"]), 6), "valid:" + case["vkind"], "y:" + case.get("ykind", "random"), "boundary" if case["boundary"] else "random"])
         ctx.given("program", bcase(name, True), ctx.n(25, 250), fn=f, shrink=False)
         ctx.given("program", bcase(name, False), ctx.n(8, 120), fn=f, shrink=False)
+        if name in ("ws2dwcv.ws2dwcv", "ws2dwcvp.ws2dwcvp", "ws2dwcvp._ws2dwcvp"):
+            # flat / exactly linear pixels with robust weights: the zero-residual paths of the reweighting loop
+            def degen(c):
+                n = max(len(c["y"]), 6)
+                y = ([c["y"][0]] * n) if c["ykind"] != "linear" else [c["y"][0] + 3 * t for t in range(n)]
+                return dict(c, y=y, valid=[True] * n if c["vkind"] != "random" else [t % 4 != 1 for t in range(n)], robust=True, ykind="constant" if c["ykind"] != "linear" else "linear",
+                            groups=[0] * n, window=1, cal=[0, n])
+            ctx.given("program", bcase(name, False).map(degen), ctx.n(6, 40), fn=f, shrink=False)
+        if name.startswith("ws2d"):
+            # series of exactly three steps (the shortest the smoothers accept besides two)
+            def three(c):
+                return dict(c, y=c["y"][:3] if len(c["y"]) >= 3 else (c["y"] * 3)[:3], valid=[True, True, True], groups=[0, 0, 0], window=1, cal=[0, 3])
+            if name not in ("ws2d.ws2d", "ws2doptvp._ws2doptvp", "ws2dwcvp._ws2dwcvp", "ws2dwcv.ws2dwcv", "ws2dwcvp.ws2dwcvp", "ws2doptvplc.ws2doptvplc_tyx"):
+                ctx.given("program", bcase(name, True).map(three), ctx.n(6, 30), fn=f, shrink=False)
